@@ -607,11 +607,15 @@ TEMPLATES = [
         ("S", FIX_NONE, [("A", 0), ("B", 1)]),
         ("A", FIX_S, ["a"]), ("A", FIX_P, ["a"]),
         ("B", 2, ["b"]), ("B", FIX_P, ["a"]), ("B", 3, ["b"])]),
+    ("indirect_epsilon", [   # A is nullable only through the unit production A -> B, and is predicted twice
+        ("S", FIX_NONE, [("A", 0), ("A", 1), "b"]),
+        ("A", 2, [("B", 3)]), ("A", FIX_P, ["a"]),
+        ("B", FIX_S, []), ("B", FIX_P, ["a"])]),
 ]
 NTPL = len(TEMPLATES)
 # a second query on the SAME grammar object, after the symbolic word: contains() must not depend on
 # earlier queries (the chart states start from the productions' own feature structures)
-PROBES = [["b", "b"], ["b"], ["a", "b"], ["b", "b"], ["a", "b"], ["a"], ["a", "a"]]
+PROBES = [["b", "b"], ["b"], ["a", "b"], ["b", "b"], ["a", "b"], ["a"], ["a", "a"], ["a", "b"]]
 ANN_TEXT = ["", "[N=s]", "[N=p]", "[N=?x]"]
 I4 = Tuple[int, int, int, int]
 
@@ -743,8 +747,8 @@ def _fcfg_oracle(args, obs):
 
 # word lengths judged per template: the lengths at which the template's feature-free language lives
 # (quick: exactly those; thorough: everything up to them)
-WLEN_Q = [(2,), (1,), (1, 2), (2,), (2,), (1,), (2,)]
-WMAX_T = [2, 1, 2, 2, 3, 1, 2]
+WLEN_Q = [(2,), (1,), (1, 2), (2,), (2,), (1,), (2,), (1, 2)]
+WMAX_T = [2, 1, 2, 2, 3, 1, 2, 3]
 ANN3 = (0, 1, 3)          # none, N=s, N=?x
 
 
@@ -972,7 +976,7 @@ _FAM_T = ("structures over f, g: each absent / unspecified / atom / nested over 
 _UNIFY_CHECKS = ("; per pair: a.unify(b) and, on copies taken before, b.unify(a): success iff the oracle finds no atom "
                  "clash, receiver = glb (canonical form), both orders agree, get_all_paths = maximal paths of the glb, "
                  "failure = FeatureStructuresNotCompatibleException; type-inconsistent and cyclic pairs assumed away")
-_TPL = "7 grammar templates (agreement, chain, epsilon, ambiguity, left recursion, alternatives, lexical ambiguity)"
+_TPL = "8 grammar templates (agreement, chain, epsilon, ambiguity, left recursion, alternatives, lexical ambiguity, indirect epsilon: a variable nullable only through a unit production and predicted twice)"
 
 CONDS = [
     Cond("C18", c18_unify, _shards_unify,
